@@ -255,6 +255,10 @@ class C05(core.Check):
         for mask in range(1, 1 << len(ids)):
             M = {ids[k] for k in range(len(ids)) if mask >> k & 1}
             add("subsets", B, M, r.choice([-1, 1, 2, 7]), r.choice([0, 1, 4, 32]), r.choice(["plain", "rfc"]), "cuts1" if mask % 4 == 0 else "list")
+            # one payload byte of ANY requested chunk corrupted (not only the first): whole body in one callback, fixed sizes, every 1-cut
+            ck = p.chunks[r.choice(sorted(M))]
+            off = p.header_len + ck["start"] + r.randrange(ck["comp_len"])
+            add("subsets", B, M, r.choice([-1, -1, 1, 2]), r.choice([0, 0, 1, 4, 32]), r.choice(["plain", "rfc"]), "list" if mask % 3 else "cuts1", corrupt=off)
         # --- larger files: random partitions, truncated targets, many ranges
         for i in range(8 if q else 120):
             n = r.choice([8, 30, 120])
